@@ -101,6 +101,23 @@ def handle (ws : List String) : String :=
       | .attributeError => "AttributeError"
       | .ok d => d.render
     | _, _, _, _ => "bad-op"
+  | "ntdist" :: method :: n :: rest =>
+    -- path lengths between all taxa in the tree `nj` / `upgma` returns: `i:j:len` for i < j
+    match n.toNat? with
+    | some n =>
+      match parseMatrix n rest with
+      | some d =>
+        let res := if method == "nj" then njTree n d else if method == "upgma" then upgmaTree n d else none
+        match res with
+        | some r =>
+          let ids := List.range n
+          unwords (ids.flatMap fun i => (ids.filter (fun j => i < j)).map fun j =>
+            match NT.dist r i j with
+            | some x => s!"{i}:{j}:{x.render}"
+            | none => s!"{i}:{j}:none")
+        | none => "IndexError"
+      | none => "bad-op"
+    | none => "bad-op"
   | "nj" :: n :: rest =>
     match n.toNat? with
     | some n =>
